@@ -89,6 +89,24 @@ def _run_part(prop, kid, tier, params, perturb, seed):
             k.fn, mode=k.mode, max_depth=k.max_depth, timeout_s=k.timeout[tier],
             solver_timeout_ms=k.solver_timeout_ms, perturb=perturb, tier=tier,
             params=dict(params), stop_on_first=bool(perturb))
+        # re-execute models of passing paths on plain python values (no proxies, no shadows):
+        # the real code must agree with the symbolic verdict
+        validated, mismatches = 0, []
+        if not perturb:
+            cex_inputs = [c.inputs for c in run.counterexamples]
+            for inputs in run.path_models:
+                if inputs in cex_inputs:
+                    continue
+                try:
+                    v, detail = symrun.replay_concrete(k.fn, inputs, tier=tier, params=dict(params))
+                except BaseException as e:
+                    mismatches.append(f"replay of a passing path crashed: {type(e).__name__}: {e}")
+                    continue
+                validated += 1
+                if v:
+                    mismatches.append(f"path passed symbolically but fails concretely: inputs={inputs} detail={detail}")
+        run.stats["validated_paths"] = validated
+        run.errors.extend(mismatches[:2])
         return {
             "stats": run.stats, "fork_sites": run.fork_sites, "notes": run.notes,
             "shadows": sorted(run.shadows_used), "stubs": sorted(run.stubs_used),
@@ -222,7 +240,7 @@ def run_property(prop, tier="quick", only=None, jobs=None, seed=0, verbose=True)
         # 3. replay of counterexamples -------------------------------------------------
         violations = []
         kernel_reports = []
-        totals = {"states": 0, "transitions": 0, "replayed": 0, "queries": 0, "solver_s": 0.0}
+        totals = {"states": 0, "transitions": 0, "replayed": 0, "queries": 0, "solver_s": 0.0, "validated": 0}
         samples = []
         for k in kernels:
             res = results[k.id]
@@ -279,6 +297,7 @@ def run_property(prop, tier="quick", only=None, jobs=None, seed=0, verbose=True)
                 harness_errors.extend(f"{k.id}: {e}" for e in rep["errors"])
             if rep["vacuous"]:
                 harness_errors.append(f"{k.id}: no path reached the assertion (vacuous harness)")
+            totals["validated"] += rep.get("passing_paths_replayed", 0)
             totals["states"] += rep["paths"]
             totals["transitions"] += rep["decisions"]
             totals["queries"] += rep["queries"] + rep["feasibility_checks"]
@@ -336,7 +355,7 @@ def run_property(prop, tier="quick", only=None, jobs=None, seed=0, verbose=True)
         "coverage": {
             "states": max(totals["states"], 0),
             "transitions": max(totals["transitions"], 0),
-            "traces_validated_against_impl": totals["replayed"] + len(known_lines),
+            "traces_validated_against_impl": totals["replayed"] + len(known_lines) + totals["validated"],
             "samples": samples[:8] or [{"note": "no path sampled"}],
             "exhaustive": bool(conclusive_all and not harness_errors),
             "rule": "states = feasible paths of the real code explored under the symbolic "
@@ -355,7 +374,7 @@ def run_property(prop, tier="quick", only=None, jobs=None, seed=0, verbose=True)
         "violations": len(violations),
     }
     os.makedirs(EVIDENCE_DIR, exist_ok=True)
-    if not only:
+    if not only and not os.environ.get("VERIF_SCRATCH_EVIDENCE"):
         with open(os.path.join(EVIDENCE_DIR, f"{prop}.json"), "w") as f:
             json.dump(evidence, f, indent=1, default=str)
     else:
@@ -418,6 +437,7 @@ def _summarise_kernel(k, tier, res):
         "stubs": sorted(stubs | set(k.stubs)), "shadows": sorted(shadows),
         "paths": paths, "decisions": st.get("decisions", 0),
         "paths_reaching_assertion": st.get("paths_with_require", 0),
+        "passing_paths_replayed": st.get("validated_paths", 0),
         "feasibility_checks": st.get("checks", 0), "queries": st.get("queries", 0),
         "q_unsat": st.get("q_unsat", 0), "q_sat": st.get("q_sat", 0),
         "q_simplified": st.get("q_simplified", 0),
